@@ -27,7 +27,7 @@ pub struct Tree {
 }
 
 /// items with unique names; later items may reference earlier ones
-fn gen_items(rng: &mut Rng, n: usize, consts: bool) -> Vec<GItem> {
+fn gen_items(rng: &mut Rng, n: usize, consts: bool, datetime: bool) -> Vec<GItem> {
     let mut stems = Stems::default();
     let mut out: Vec<GItem> = vec![];
     let mut types: Vec<String> = vec![];
@@ -44,7 +44,11 @@ fn gen_items(rng: &mut Rng, n: usize, consts: bool) -> Vec<GItem> {
                     _ => format!("Option<{t}>"),
                 }
             } else {
-                rng.pick(&["u32", "String", "bool", "Vec<String>", "Option<i32>"]).to_string()
+                // types that make a backend pull in helpers / imports (their order must not depend on hash seeds either)
+                if datetime && rng.chance(1, 5) {
+                    return rng.pick(&["OffsetDateTime", "Option<OffsetDateTime>", "Vec<OffsetDateTime>"]).to_string();
+                }
+                rng.pick(&["u32", "String", "bool", "Vec<String>", "Option<i32>", "HashMap<String, u32>", "()", "Vec<u8>", "[u16; 2]"]).to_string()
             }
         };
         let (text, is_const, nm) = match kind {
@@ -70,7 +74,10 @@ fn gen_items(rng: &mut Rng, n: usize, consts: bool) -> Vec<GItem> {
                 t.push_str("}\n");
                 (t, false, name.clone())
             }
-            3 => (format!("#[typeshare]\npub type {name} = {};\n", refty(rng, &types)), false, name.clone()),
+            3 => {
+                let ren = if rng.chance(1, 3) { format!("#[serde(rename = \"{}{}\")]\n", ["Zz", "Aa", "Mm"][rng.below(3)], name) } else { String::new() };
+                (format!("#[typeshare]\n{ren}pub type {name} = {};\n", refty(rng, &types)), false, name.clone())
+            }
             _ => {
                 let cname = format!("{}_{}", st.to_uppercase(), ["LIMIT", "SIZE", "MAX"][rng.below(3)]);
                 (format!("#[typeshare]\npub const {cname}: u32 = {};\n", rng.below(1000)), true, cname)
@@ -141,6 +148,11 @@ pub struct RunOut {
 }
 
 pub fn run_tree(cli: &Path, root: &Path, lang: LangId, cfg: &LangCfg, multi: bool, env: Vec<(String, String)>, tag: &str, strace: Option<PathBuf>) -> RunOut {
+    run_tree_dirs(cli, root, lang, cfg, multi, env, tag, strace, &["src_root"])
+}
+
+/// the same with several input directories on the command line
+pub fn run_tree_dirs(cli: &Path, root: &Path, lang: LangId, cfg: &LangCfg, multi: bool, env: Vec<(String, String)>, tag: &str, strace: Option<PathBuf>, dirs: &[&str]) -> RunOut {
     let out = if multi { root.join(format!("out-{tag}")) } else { root.join(format!("out-{tag}.{}", lang.ext())) };
     let _ = std::fs::remove_dir_all(&out);
     let _ = std::fs::remove_file(&out);
@@ -148,7 +160,7 @@ pub fn run_tree(cli: &Path, root: &Path, lang: LangId, cfg: &LangCfg, multi: boo
     let _ = std::fs::remove_file(&log);
     let mut env = env;
     env.push(("TYPESHARE_VERIF_LOG".into(), log.to_string_lossy().into_owned()));
-    let args = cli_args(lang, cfg, multi, &out, &["src_root"]);
+    let args = cli_args(lang, cfg, multi, &out, dirs);
     let o = run_bin(BinRun { cli, args, env, cwd: root, strace, wall_limit: Duration::from_secs(60) });
     let files = if multi {
         read_dir_files(&out)
@@ -266,7 +278,7 @@ pub fn run(ctx: &Ctx) -> (Spec, Report) {
                     }
                     let consts = langs_const.contains(&lang);
                     let n_items = k + rng.range(1, 4);
-                    let items = gen_items(&mut rng, n_items, consts);
+                    let items = gen_items(&mut rng, n_items, consts, langs_const.contains(&lang));
                     let mut tree = layout(&items, k, if multi { 3 } else { 2 }, &mut rng);
                     if multi {
                         add_uses(&mut tree, &items);
@@ -284,7 +296,7 @@ pub fn run(ctx: &Ctx) -> (Spec, Report) {
     for &k in &[8usize, 12, 24] {
         for &lang in &[LangId::Ts, LangId::Python, LangId::Kotlin] {
             let multi = k == 12;
-            let items = gen_items(&mut rng, k + 6, langs_const.contains(&lang));
+            let items = gen_items(&mut rng, k + 6, langs_const.contains(&lang), langs_const.contains(&lang));
             let mut tree = layout(&items, k, 4, &mut rng);
             if multi {
                 add_uses(&mut tree, &items);
@@ -298,7 +310,7 @@ pub fn run(ctx: &Ctx) -> (Spec, Report) {
     for &lang in ALL_LANGS.iter() {
         for multi in [false, true] {
             let k = 10;
-            let items = gen_items(&mut rng, 16, langs_const.contains(&lang));
+            let items = gen_items(&mut rng, 16, langs_const.contains(&lang), langs_const.contains(&lang));
             let mut tree = layout(&items, k, 4, &mut rng);
             if multi {
                 add_uses(&mut tree, &items);
@@ -377,7 +389,7 @@ pub fn run(ctx: &Ctx) -> (Spec, Report) {
         jobs.push(Job { tree, lang, multi: true, variants, label: "fresh-processes-ambiguous-names".into() });
     }
     for &lang in ALL_LANGS.iter() {
-        let items = gen_items(&mut rng, 14, langs_const.contains(&lang));
+        let items = gen_items(&mut rng, 14, langs_const.contains(&lang), langs_const.contains(&lang));
         let mut tree = layout(&items, 7, 3, &mut rng);
         add_uses(&mut tree, &items);
         let variants = (0..ctx.tier.pick(12, 60)).map(|i| (format!("process#{i}"), vec![])).collect();
@@ -451,7 +463,7 @@ pub fn run(ctx: &Ctx) -> (Spec, Report) {
         let mut rng = Rng::derive(seed, "C06-resplit", i as u64);
         let lang = ALL_LANGS[i % 6];
         let n_items = rng.range(6, 14);
-        let items = gen_items(&mut rng, n_items, langs_const.contains(&lang));
+        let items = gen_items(&mut rng, n_items, langs_const.contains(&lang), langs_const.contains(&lang));
         let cfg = LangCfg::basic(lang);
         let mut reference: Option<BTreeMap<String, Vec<u8>>> = None;
         for part in 0..5 {
@@ -463,11 +475,20 @@ pub fn run(ctx: &Ctx) -> (Spec, Report) {
             let tree = layout(&shuffled, k.min(shuffled.len()), 1 + part % 3, &mut rng);
             let root = scratch.join(format!("rs{i}-{part}"));
             let mut files = tree.files.clone();
+            // partitions 3 and 4 also spread the crates over two or three input directories, named on the command
+            // line in a shuffled order
+            let n_roots = [1usize, 1, 1, 2, 3][part];
+            let root_names = ["src_root", "second_root", "third_root"];
             for f in files.iter_mut() {
-                f.path = format!("src_root/{}", f.path);
+                let krate = f.path.split('/').next().unwrap_or("").to_string();
+                let ri = (krate.len() + krate.bytes().map(|b| b as usize).sum::<usize>()) % n_roots;
+                f.path = format!("{}/{}", root_names[ri], f.path);
             }
             write_tree(&root, &files);
-            let r = run_tree(&cli, &root, lang, &cfg, false, vec![], "v", None);
+            let mut dirs: Vec<&str> = root_names[..n_roots].iter().copied().filter(|d| root.join(d).is_dir()).collect();
+            rng.shuffle(&mut dirs);
+            rep.count(&format!("runs_resplit_with_{}_input_directories", dirs.len()), 1);
+            let r = run_tree_dirs(&cli, &root, lang, &cfg, false, vec![], "v", None, &dirs);
             rep.eval(1);
             rep.count("cli_runs", 1);
             rep.count("runs_resplit", 1);
